@@ -1684,6 +1684,14 @@ def run(ctx: Ctx, driver_ok: bool) -> None:
                                 'JsonML/DataElement also through the scoped recursion with one name mapping per lexical '
                                 'scope, plus hand-made one-level calls and the witnesses of the _counterexample theorems; '
                                 'iter_unordered_content/iter_collapsed_content replayed with the recorded visitor)')
+    # the replay file names the first failure: put the ones that carry a whole replayable input first (a valid
+    # document whose round trip fails, then mutated data), the bare "finding X fails again" records last
+    def rank(f):
+        c = f.get('case')
+        if isinstance(c, dict) and 'xsd' in c and 'xml' in c:
+            return 1 if 'mutation' in c else 0
+        return 2
+    ctx.failures.sort(key=rank)
     ctx.extra['converters_modelled_in_lean'] = list(MODELLED)
     ctx.extra['counterexample_witnesses_replayed_on_real_code'] = [w[0] for w in WITNESSES]
     ctx.extra['converters_differential_only'] = [c for c in conv_classes() if c not in MODELLED]
